@@ -46,6 +46,15 @@ for _pid, _what in {
                      "evaluated on the observed history; held on everything explored.",
                      SIM_NOTE, "DESIGN.md par. 2 and par. 3 " + _pid)
 
+CLAIMED["C03"] = ("property-based testing: Hypothesis-generated coroutine/process programs, every switch issued through a "
+                  "nasm probe that loads generated register and MXCSR contents, lockstep reference model in the executor; "
+                  "each case on the asan and the gcc -O3 builds",
+                  "Search, not proof: generated programs over 2-6 coroutines and main with every switch at a generated "
+                  "call depth and register/MXCSR contents; bit-identity of callee-saved registers, MXCSR control bits, "
+                  "stack canaries, message delivery, entry arguments and alignment checked; held on everything explored.",
+                  "Trusts the reference model in harness/m_coro.c and the probe harness/coro_probe.asm; register contents "
+                  "are sampled, x87 control word and rflags are outside the statement.", "DESIGN.md par. 3 C03")
+
 NOT_YET = "check not built yet in this session (work in progress; see DESIGN.md §3 for the planned check)"
 
 
